@@ -4,6 +4,7 @@ import (
 	"fmt"
 	"io"
 	"math/big"
+	"os"
 	"strings"
 	"sync"
 
@@ -79,8 +80,8 @@ func checkPrimes(a vh.Args, res *vh.Result, q primeReq, idx int) {
 	}
 	out, derr := vh.Driver(a.Driver, lines)
 	if derr != nil {
-		res.Note("driver: %v", derr)
-		return
+		fmt.Fprintln(os.Stderr, derr)
+		os.Exit(3)
 	}
 	blum := strings.HasPrefix(q.form, "blum")
 	safe := strings.HasPrefix(q.form, "safe")
